@@ -85,6 +85,12 @@ impl Input for str {
     /// slicing by a range.end-range.start chars.
     #[inline]
     fn slice(&self, range: Range<usize>) -> &<Self as Index<Range<usize>>>::Output {
+        // The start must be a char boundary too.
+        let mut start = range.start;
+        while !self.is_char_boundary(start) {
+            start -= 1;
+        }
+        let range = start..range.end;
         &self[range.start
             ..range.start
                 + self[range.start..]
